@@ -12,48 +12,48 @@ REPO_SOURCES = ["src/Algorithms/GradientDescent/AbstractLineSearchOptimizer.cpp"
                 "src/Algorithms/GradientDescent/Rprop.cpp",
                 "src/Algorithms/GradientDescent/TrustRegionNewton.cpp",
                 "src/Core/Random.cpp"]
-LAKE_TARGETS = ["SharkVerif.Props.C10", "SharkVerif.Gen.LbfgsBox", "drv_c10"]
+LAKE_TARGETS = ["SharkVerif.Props.C10", "SharkVerif.Props.C10Deep", "SharkVerif.Gen.LbfgsBox", "SharkVerif.Gen.LineSearchSrc", "drv_c10"]
 
 TRUST = ("Lean 4.33 kernel; axioms at most propext/Classical.choice/Quot.sound (audited per run); hand-written model "
          "tied to the C++ by the correspondence harness (differential, generator-bounded); ")
 MANIFEST = dict(
-  text=("Theorems (Props/C10.lean) about executable models of SteepestDescent, Adam, the Rprop family, "
-        "AbstractLineSearchOptimizer with BFGS / CG / L-BFGS (unconstrained direction AND the box-constrained Cauchy-point/dog-leg direction getBoxConstrainedDirection) and the backtracking line search, "
-        "for every objective (arbitrary f, grad, feasibility predicate), starting point, parameter setting and number of steps: "
-        "best_value_is_f_best_point (reported value = f(reported point) after init and every step, for every optimizer of the model and every scalar type incl. Float), "
-        "ls_derivative_is_grad_best_point, backtracking_no_increase (+ failure leaves point/value/gradient unchanged), "
-        "linesearch_methods_monotone_bfgs (the values reported by BFGS with any dimension-preserving no-increase line search, in particular backtracking, are non-increasing over the whole run, "
-        "because bfgsUpdate_listPD keeps the list-based inverse-Hessian approximation symmetric positive definite (transported from bfgs_update_symPD on Mathlib matrices) and bfgs_direction_descent gives g'd<0), "
-        "linesearch_methods_monotone_partial (any of BFGS/CG/L-BFGS: one step does not increase the value given a non-ascent direction), direction_descent_neg_gradient, "
-        "box-constrained L-BFGS direction, for every dimension, box, point inside the box, gradient and every pair of implicit matrices positive on the projected gradient: "
-        "coords_ok (what the split into movable and blocked variables guarantees), box_direction_feasible_partial (x + d stays in the box unless the Cauchy point touches a bound; box_direction_touching_witness shows the hypothesis cannot be dropped = finding F-C10-12), "
-        "box_direction_descent (g'd < 0 whenever the projected gradient is non-zero) and box_direction_nonzero (d != 0 in that case: the clipped step lengths are positive because the loop only takes minima with positive numbers), "
-        "sd/adam/rprop/ls/trn_step_reads_archived (against member lists regenerated from the C++ read/write bodies by translate/opt_fields.py on every run: every member step reads is archived, read mirrors write, the archive is the model's Saved structure), "
-        "box_feasible_inv_rprop (Rprop never leaves the feasible set), resume_same_iterates (read(write s) = s for the archived members, so a restored instance continues with the same iterates). "
-        "Tie: SteepestDescent/Adam/Rprop are compared bit for bit (Float instance of the same definitions, same operation order) and, for every C++ step that raised no FE_INEXACT, "
-        "exactly with the Rat instance; all 8 Rprop variants (useFreezing x useBacktracking x useOldValue) are additionally run on non-separable quadratics in boxes narrower than the step sizes placed around the minimiser; "
-        "BFGS/CG/L-BFGS by one-step refinement from the harness' own previous state (bit-identical in >90% of the steps, 1e-9 tolerance otherwise), for box-constrained L-BFGS including the history update and the dog-leg direction "
-        "(active set reproduced bit for bit; multBInv/multB of the real code are inputs of the model; the text of getBoxConstrainedDirection is pinned by translate/lbfgs_box.py, which also selects the model variant the tree contains); "
-        "getBoxConstrainedDirection is additionally called directly on injected states (every coordinate on its lower bound / on its upper bound / inside, gradient component zero / inward / outward, narrow and wide boxes, 0..3 curvature pairs, exact ties) "
-        "with an independent oracle (finite, x+d in the box, blocked coordinates do not move, d = 0 iff the projected gradient is 0, g'd < 0); "
-        "the line searches are additionally called directly from arbitrary points along arbitrary (descent, ascent, zero, random) directions (backtracking compared with the model, all three types checked against the contracts value=f(point), gradient=grad(point), no increase when g'd<=0); "
-        "object reuse: a used optimizer is initialised again (every optimizer; compared from then on with a brand-new instance and with the model's fresh init: init must reset step sizes, moments, counters, history, Hessian approximation); configuration axes crossed on every run: line-search type (also requested on box-constrained objectives, where init forces backtracking), initial bracket minInterval/maxInterval, L-BFGS history size, TrustRegionNewton initial radius and minImprovementRatio, all setters of SteepestDescent/Adam/Rprop; "
-        "per-step oracle on every run: value = f(point) bit for bit, finite, feasible (BoxConstraintHandler::isFeasible AND plain comparisons with the bounds), no increase for line-search methods and TRN, restored instance = uninterrupted twin; "
-        "convergence oracle (numerical, tolerance 1e-6(1+||b||_inf) on the KKT residual x - clamp(x - g, l, u), which is the gradient without a box) after 300/400/1000 steps on strictly convex quadratics, "
-        "for box-constrained L-BFGS on problems whose minimiser has active upper and lower bounds, from starting points inside, on faces and in corners; "
-        "save/restore at random step indices through text and binary archives into a 0xFF-poisoned fresh instance, strict and lenient protocol."),
-  note=TRUST + "monotonicity over whole runs is proved for BFGS only; for CG and L-BFGS only the one-step statement under the hypothesis that the direction is a non-ascent direction "
-       "(not provable for the C++ CG restart branch d := d - g, nor for Dai-Yuan CG with an Armijo-only line search; the L-BFGS two-loop recursion is modelled and tied but its positive definiteness is not proved, "
-       "so box_direction_descent/nonzero carry p0'Bp0 > 0 and p0'B^-1 p0 > 0 as hypotheses; multB (compact representation, BLAS) is a parameter of the model, not modelled); "
-       "the repaired variants of the box direction (clipping by the sign of the direction, scaled Cauchy step; selected from the source text by translate/lbfgs_box.py) are modelled, tied bit for bit and have their own theorems: box_direction_feasible_repaired (no touching hypothesis, no hypothesis on the matrices), box_direction_descent_repaired, box_direction_nonzero_repaired; "
-       "only exercised by the correspondence / harness oracle (not theorems): dlinmin and wolfecubic line searches (contracts LSSound/LSNoIncrease are hypotheses, checked per step on the real code), "
-       "TrustRegionNewton (oracle only: value=f(point), finite, no increase, resume), finiteness, convergence on strictly convex quadratics (numerical oracle inside the harness, tolerance as stated). "
-       "Open findings on the unpatched tree (known_findings.json, findings_proposed/C10.md): F11, F-C10-12 (dog-leg ignores a bound at distance 0: infeasible direction / 'internal error'), "
-       "F-C10-13 (stall when an iterate is outside the box by rounding), F-C10-14 (Cauchy step lacks the factor |p0|^2: thousands of steps), F-C10-15 (low severity: freeze at relative accuracy 1e-5 when a movable variable is 1e-12 from the bound it moves to); the check is green on the tree with the proposed patches and follows them automatically.",
-  technique="Lean 4 invariant/refinement proofs over all step sequences + differential correspondence with the C++ (ASan/UBSan), bit-exact and exact-rational modes; independent numerical oracles in the harness",
+  text=("Theorems (Props/C10.lean, Props/C10Deep.lean, Lemmas/LineSearches.lean, Lemmas/LBFGS.lean) about executable models of SteepestDescent (with momentum), Adam, the Rprop family (8 flag combinations incl. IRprop+/-), "
+        "AbstractLineSearchOptimizer with BFGS / CG (Dai-Yuan beta, periodic reset, the C++ restart branch d := d - g) / L-BFGS (unconstrained two-loop direction AND the box-constrained Cauchy-point/dog-leg direction getBoxConstrainedDirection), "
+        "ALL THREE line searches of LineSearch.cpp as loops with fuel (backtracking; wolfecubic: bracketing by tenfold expansion, zoom by clamped cubic interpolation wlsCubicInterp with the 10% safeguard; dlinmin: mnbrak bracketing with parabolic extrapolation + Brent's method with derivatives), "
+        "and TrustRegionNewton (forcing schedule, CG-Steihaug sub-problem trustRegionCG, borderDistance, errorDifference, radius update, acceptance rule), "
+        "for every objective (arbitrary f, grad, feasibility predicate), starting point, parameter setting and number of steps. "
+        "(1) value consistency: best_value_is_f_best_point (init + every step, every optimizer of the model, every scalar type incl. Float), best_value_is_f_best_point_history (every history of init / step / init-again-on-the-used-object / archive-and-restore into any object; 'best' is the current iterate, for SteepestDescent and Adam the last one), "
+        "trn_value_is_f_point (TrustRegionNewton: value, gradient and Hessian are those of the reported point, every scalar type), dlinmin_sound (every scalar type, no hypothesis), wolfecubic_contract / dlinmin_contract / backtracking_contract / lineSearchOf_contract "
+        "(the modelled line searches, every type, every initial bracket, every sqrt: value = f(point), gradient = grad(point), same dimension, no increase along a non-ascent direction; dlinmin_no_increase needs no hypothesis on the direction), ls_derivative_is_grad_best_point, wolfecubic_single_strong_wolfe (when the bracketing phase accepts a trial step outright the returned point satisfies both strong Wolfe conditions with c1 = 1e-4, c2 = 0.9, or the start is kept); "
+        "(2) line-search methods never increase the objective, over whole runs and with NO hypothesis about the line search left: linesearch_methods_monotone_bfgs_modelled (bfgsUpdate_listPD keeps the inverse-Hessian approximation SPD, incl. the reset branch), "
+        "linesearch_methods_monotone_lbfgs_modelled (lbfgs_two_loop_is_matrix: for every history length the two loops of multBInv compute M x where M is (1/bdiag) I followed by one BFGS inverse update per stored pair, and M is symmetric positive definite because updateHist only stores pairs with y's > 1e-10; lbfgs_direction_descent), "
+        "linesearch_methods_monotone_cg_modelled (CG with the modelled wolfecubic or backtracking on every objective with a monotone gradient, i.e. every convex objective incl. all strictly convex quadratics: cg_direction_nonascent shows that periodic reset, restart branch and Dai-Yuan update give non-ascent directions whenever d'(g - g_old) >= 0, with the identity g'd_new = |g|^2 (g_old'd)/(d'(g-g_old)); wolfecubic_ray/backtracking_ray: only non-negative step lengths are tried); "
+        "cg_negative_curvature_witness (without the curvature hypothesis the Dai-Yuan direction can be an ascent direction: the C++ tests |d'(g-g_old)|, not its sign), linesearch_methods_monotone_partial (any model, any line search: one step, given a non-ascent direction); "
+        "(3) TrustRegionNewton: trn_step_no_increase_partial (the acceptance rule rho >= minImprovementRatio >= 0 never increases the objective when the sub-problem predicts no increase), trn_subproblem_predicts_decrease (Lemmas/TrustRegion.lean: for a symmetric Hessian of ANY definiteness the CG-Steihaug loop keeps residual = g + H step, residual'direction = -|residual|^2 and m(step) <= 0, what it returns at an interior exit is m(step), so every interior exit predicts no increase; cgLoop_decrease), toBorder_nonpos + border_tau_bounds (a boundary exit from an invariant state inside the radius predicts no increase too when sqrt is exact and non-negative at the one discriminant it is applied to: then 0 < tau, and tau <= alpha in the positive-curvature case; toBorder_value: the returned number is m(step) - tau |r|^2 + tau^2 d'Hd / 2), trn_cg_inside / trn_cg_interior_inside (every non-boundary exit of CG-Steihaug returns a step strictly inside the radius: the loop tests before it moves), trn_border_on_sphere (boundary exits land on the sphere |z + tau d| = delta when sqrt is exact at the discriminant); "
+        "(4) box constraints: box_feasible_inv_rprop, coords_ok, box_direction_feasible_partial + box_direction_touching_witness (F-C10-12), box_direction_descent, box_direction_nonzero and the *_repaired variants (selected from the source by translate/lbfgs_box.py); lbfgs_multBInv_pos discharges the hypothesis p0'B^-1p0 > 0 of box_direction_descent when no coordinate is blocked; box_linesearch_feasible (x in the box, x + d in the box, initial step in [0,1] => the point returned by the backtracking line search is in the box, exactly: composes with box_direction_feasible_* to one-step feasibility of box-constrained L-BFGS); "
+        "(5) save/restore: sd/adam/rprop/ls/trn_step_reads_archived (member lists regenerated from the C++ read/write bodies by translate/opt_fields.py on every run), resume_same_iterates; "
+        "(6) wolfecubic as shipped reads its bracket arrays uninitialised when the bracketing loop runs out of iterations: the model has their content as a parameter, wolfecubic_contract_partial (hypothesis WolfeBracketed) + wolfecubic_uninitialised_witness (finding F-C10-16); translate/linesearch.py recognises which declaration the tree contains and pins the text of wolfecubic and the constants of wolfecubic/dlinmin. "
+        "Tie on every run: SteepestDescent/Adam/Rprop bit for bit (Float instance of the same definitions) and, for every C++ step that raised no FE_INEXACT, exactly with the Rat instance; all 8 Rprop variants on narrow boxes around the minimiser; "
+        "BFGS/CG/L-BFGS by one-step refinement from the harness' own previous state with the line search RUN BY THE MODEL for all three types (dlinmin with the configured bracket [minInterval,maxInterval]; bit-identical in >98% of the steps, 1e-9 tolerance otherwise); "
+        "the three line searches additionally called directly from arbitrary points along arbitrary (descent, ascent, zero, random) directions and compared with the model, with the independent oracle value=f(point), gradient=grad(point), no increase when g'd<=0; "
+        "TrustRegionNewton by one-step refinement of the whole step (point, value, gradient, Hessian, radius), and the two facts its theorems take as hypothesis / prove in exact arithmetic are checked on the tied model at every step (predicted change <= 0, |step|^2 <= delta^2 (1+1e-6)); "
+        "getBoxConstrainedDirection called directly on injected states (active set reproduced bit for bit; multBInv/multB of the real code are inputs of the model); the stack is pre-filled with -1e300 before every step / direct line search so that reads of uninitialised locals are visible; "
+        "boundary classes in every run for every optimizer x line-search type: start exactly on the minimiser (zero gradient: zero direction, 0/0 in TrustRegionNewton), all-zero problem, dimension 1, archive before the first step, init twice in a row, ties between coordinates, magnitudes 2^10 / 2^-10, one-step problems; "
+        "object reuse (a used optimizer initialised again is compared with a brand-new instance and with the model's fresh init); configuration axes crossed: line-search type (also requested on box-constrained objectives, where init forces backtracking), initial bracket, L-BFGS history size, TRN radius and minImprovementRatio, all setters of SteepestDescent/Adam/Rprop; "
+        "per-step oracle: value = f(point) bit for bit, finite, feasible (isFeasible AND plain comparisons), no increase for line-search methods and TRN, restored instance = uninterrupted twin; "
+        "convergence oracle (numerical, KKT residual <= 1e-6(1+||b||_inf)) after 300/400/1000 steps on strictly convex quadratics incl. box-constrained L-BFGS with active upper and lower bounds; "
+        "save/restore at random step indices through text and binary archives into a 0xFF-poisoned fresh instance, strict and lenient protocol; input distribution (optimizer, objective, dimension, steps, saves, re-initialisations, steps before first save, history sizes, variants, boundary classes) recorded in the evidence."),
+  note=TRUST + "NOT proved (exercised by correspondence / oracle only): finiteness of the iterates; convergence on strictly convex quadratics (cg_exact_linesearch_n_steps is not proved: numerical KKT oracle in the harness, tolerance as stated); "
+       "for TrustRegionNewton the composition 'acceptance never increases' is proved up to exactness of sqrt at the boundary exits (interior exits: unconditional for symmetric Hessians; boundary exits: toBorder_nonpos under the exact-sqrt hypothesis; both facts are also checked on the tied Float model at every step); "
+       "CG with dlinmin over whole runs (dlinmin may step backwards along the direction; only the one-step statement applies) and CG on non-convex objectives (the Dai-Yuan direction can be an ascent direction: witness theorem; oracle `increased` on every Rosenbrock step); "
+       "p0'Bp0 > 0 in box_direction_descent/nonzero (multB, the compact representation with BLAS, is a parameter of the model; p0'B^-1p0 > 0 is proved only for the un-blocked case via lbfgs_multBInv_pos); whole-run monotonicity of BOX-CONSTRAINED L-BFGS (direction theorems only). "
+       "Partial theorems and why: wolfecubic_contract_partial (the tree as shipped reads uninitialised arrays when bracketing fails: genuine defect F-C10-16, witness theorem); box_direction_feasible_partial (F-C10-12, witness); trn_step_no_increase_partial (its hypothesis is discharged by trn_subproblem_predicts_decrease / toBorder_nonpos except for the exactness of sqrt: floating point is not exact; with the F10 sign error the prediction was positive); trn_border_on_sphere (sqrt exact at one argument: floating point is not). "
+       "Order statements are over Rat (exact arithmetic); statements without arithmetic hold for every scalar type incl. the Float instance the driver runs. "
+       "Open findings on the unpatched tree (known_findings.json, findings_proposed/C10.md): F-C10-15 (low severity: box-constrained L-BFGS freezes at relative accuracy 1e-5 when a movable variable is 1e-12 from the bound it moves to), F-C10-16 (wolfecubic uninitialised bracket arrays; outside the generated objective family, reached by the corpus input with a linear objective); the check is green on the tree with the proposed patches and follows them automatically.",
+  technique="Lean 4 invariant/refinement proofs over all step sequences and loop iterations (fuel) + differential correspondence with the C++ (ASan/UBSan), bit-exact and exact-rational modes; independent numerical oracles in the harness",
   design="§6 C10, §14 C10")
 FINISH = dict(level="proof",
-              rule="one case = objective (integer strictly convex quadratic A=M'M+kI n<=5 | Rosenbrock n<=4, optional dyadic box) + optimizer + "
+              rule="one case = objective (integer strictly convex quadratic A=M'M+kI n<=5 | Rosenbrock n<=4, optional dyadic box | fixed boundary problems) + optimizer + "
                    "dyadic starting point + steps with save/restore ops at random indices | direct line searches | direct calls of getBoxConstrainedDirection "
                    "on injected states | Rprop variant x narrow box | box-constrained L-BFGS convergence problem; non-trivial = at least 3 steps/calls; distinct = distinct op text")
 
@@ -266,24 +266,38 @@ def gen_lbfgs_box_converge_case(r, nsteps):
     return ops
 
 
+def rosen_grad(x):
+    n = len(x); g = [0.0] * n
+    for i in range(n - 1):
+        a = x[i + 1] - x[i] * x[i]; cc = 1.0 - x[i]
+        g[i] += -400.0 * a * x[i] - 2.0 * cc
+        g[i + 1] += 200.0 * a
+    return g
+
+
 def gen_linesearch_case(r, nls):
-    """direct line searches from arbitrary points along arbitrary directions: descent (-g, scaled), ascent (+g),
-    zero, random; many start at the origin or have zero coordinates so that a spurious move is visible"""
-    while True:
-        ops, n, okind, box = gen_objective(r, boxed=False)
-        if okind[0] == "quad":
-            break
-    A = [struct.unpack(">d", bytes.fromhex(t[1:]))[0] for t in ops[0].split()[3:3 + n * n]]
-    b = [struct.unpack(">d", bytes.fromhex(t[1:]))[0] for t in ops[0].split()[3 + n * n:]]
+    """direct line searches (all three types) from arbitrary points along arbitrary directions: descent (-g, scaled by
+    2^-20 .. 2^20 so that the minimiser along the line lies near either end of the first bracket, or far beyond it),
+    ascent (+g), zero, random; quadratics and Rosenbrock (where cubic interpolation is not exact, so that the zoom phase
+    iterates and its 10 % safeguard is used); initial step lengths 2^-10 .. 100; many start at the origin or have zero
+    coordinates so that a spurious move is visible"""
+    ops, n, okind, box = gen_objective(r, boxed=False)
+    if okind[0] == "quad":
+        A = [struct.unpack(">d", bytes.fromhex(t[1:]))[0] for t in ops[0].split()[3:3 + n * n]]
+        b = [struct.unpack(">d", bytes.fromhex(t[1:]))[0] for t in ops[0].split()[3 + n * n:]]
+        grad = lambda x: [sum(A[i * n + j] * x[j] for j in range(n)) - b[i] for i in range(n)]
+    else:
+        grad = rosen_grad
     for _ in range(nls):
-        x = [r.choice([0, 0, 1, -1, 0.5, r.range(-16, 16) / 4]) for _ in range(n)]
-        g = [sum(A[i * n + j] * x[j] for j in range(n)) - b[i] for i in range(n)]
-        k = r.below(8)
-        if k < 3: d = [-v * r.choice([1, 1, 0.25, 2.0 ** 20, 2.0 ** -20]) for v in g]
-        elif k < 5: d = [v * r.choice([1, 2.0 ** 10, 2.0 ** -10]) for v in g]       # ascent: every trial fails
-        elif k < 6: d = [0.0] * n
+        if okind[0] == "quad": x = [r.choice([0, 0, 1, -1, 0.5, r.range(-16, 16) / 4]) for _ in range(n)]
+        else: x = [r.choice([0, 1, -1, 0.5, r.range(-12, 12) / 8]) for _ in range(n)]
+        g = grad(x)
+        k = r.below(10)
+        if k < 5: d = [-v * r.choice([1, 1, 0.25, 4, 1 / 64, 64, 2.0 ** 20, 2.0 ** -20]) for v in g]
+        elif k < 7: d = [v * r.choice([1, 2.0 ** 10, 2.0 ** -10]) for v in g]       # ascent: every trial fails
+        elif k < 8: d = [0.0] * n
         else: d = [r.range(-8, 8) / 2 for _ in range(n)]
-        ops.append("ls %s %s %s %s" % (fb(r.choice([2, 2, 2, 1, 0])), fb(r.choice([1.0, 1.0, 0.5, 8.0, 2.0 ** -10])), nums(x), nums(d)))
+        ops.append("ls %s %s %s %s" % (fb(r.choice([2, 2, 1, 1, 1, 0, 0])), fb(r.choice([1.0, 1.0, 0.5, 8.0, 100.0, 0.125, 2.0 ** -10])), nums(x), nums(d)))
     return ops
 
 
@@ -340,6 +354,54 @@ def gen_boxdir_case(r, ncalls):
         ops.append("boxdir %d %s %s %s %s %s%s%s" % (m, fb(bdiag), nums(x), nums(g), nums(l), nums(u),
                    "".join(" " + nums(sv) for sv in S), "".join(" " + nums(yv) for yv in Y)))
     return ops
+
+
+def boundary_cases(r):
+    """boundary classes, present in every run (quick tier too), for every optimizer and every line-search type:
+    start exactly on the minimiser (zero gradient at init: zero direction, 0/0 in the initial step length and in
+    TrustRegionNewton's borderDistance), everything zero (A = I, b = 0, x0 = 0), dimension 1, no step at all (init, save, step),
+    a used object initialised twice in a row at the same point, equal diagonal entries (ties between coordinates in Rprop),
+    large and small magnitudes (objective and start scaled by 2^10 / 2^-10), one step exactly to the minimiser
+    (A = I with unit step).  Returns (scalar cases, line-search/TRN cases), each tagged with its class for the histogram"""
+    sc, lc = [], []
+    def quad(A, b): 
+        n = len(b)
+        return "obj quad %d %s %s" % (n, nums(x for row in A for x in row), nums(b))
+    probs = {
+        "start-on-minimiser-n1": ([[4]], [2], [0.5]),
+        "start-on-minimiser-n2": ([[2, 0], [0, 4]], [2, -2], [1, -0.5]),
+        "all-zero": ([[1, 0], [0, 1]], [0, 0], [0, 0]),
+        "dimension-1": ([[3]], [1], [-2.25]),
+        "equal-diagonal-ties": ([[2, 1, 1], [1, 2, 1], [1, 1, 2]], [1, 1, 1], [2, 2, 2]),
+        "identity-one-step": ([[1, 0, 0], [0, 1, 0], [0, 0, 1]], [1, -2, 0.5], [0, 0, 0]),
+        "large-magnitude": ([[2 * 1024, 1024], [1024, 3 * 1024]], [1024, -2048], [512, -768]),
+        "small-magnitude": ([[2 / 1024, 1 / 1024], [1 / 1024, 3 / 1024]], [1 / 1024, -2 / 1024], [0.5, -0.75]),
+    }
+    opts = []
+    for ls in (0, 1, 2):
+        opts += [("bfgs", "opt bfgs " + nums([ls])), ("cg", "opt cg " + nums([ls])), ("lbfgs", "opt lbfgs " + nums([ls, r.choice([1, 2, 5])]))]
+    opts += [("trn", "opt trn"), ("trn", "opt trn " + nums([8.0, 0.05]))]
+    for cls, (A, b, x0) in probs.items():
+        tr = sum(A[i][i] for i in range(len(b)))
+        lr = 1.0
+        while lr * tr > 1: lr /= 2
+        sopts = ["opt sd " + nums([lr, 0.5]), "opt sd " + nums([lr / 2, 0.0]), "opt adam " + nums([0.125, 0.9, 0.999, 1e-8])]
+        sopts += ["opt rprop " + nums([1.2, 0.5, 1e100, 0.0, fr, bt, ov, 0.125]) for fr, bt, ov in ((0, 0, 0), (1, 0, 0), (0, 1, 0), (0, 1, 1))]
+        for o in sopts:
+            tails = [["init " + nums(x0), "step", "step", "save text strict", "step"],
+                     ["init " + nums(x0), "save bin lenient", "step"],                       # no step before the first save
+                     ["init " + nums(x0), "init " + nums(x0), "step", "step"]]                # initialised twice in a row
+            sc.append((cls, [quad(A, b), o] + tails[r.below(3)]))
+        for kind, o in opts:
+            tails = [["init " + nums(x0), "step", "step", "save text strict", "step", "step"],
+                     ["init " + nums(x0), "save bin lenient", "step", "step"],
+                     ["init " + nums(x0), "init " + nums(x0), "step", "step", "step"]]
+            lc.append((cls, [quad(A, b), o] + tails[r.below(3)]))
+    # Rosenbrock boundary starts: on the minimiser (1,...,1), on the saddle-like origin, dimension 2
+    for kind, o in opts:
+        lc.append(("rosen-start-on-minimiser", ["obj rosen 3", o, "init " + nums([1, 1, 1]), "step", "step"]))
+        lc.append(("rosen-origin", ["obj rosen 2", o, "init " + nums([0, 0]), "step", "step", "step"]))
+    return sc, lc
 
 
 def case_info(ops):
@@ -436,20 +498,23 @@ def run_case_ls(ctx, hcmd, dcmd, ops, timeout=120, stats=None):
                 # a constrained objective forces the backtracking line search inside init
                 ls = 2 if boxed else int(struct.unpack("<d", bytes.fromhex(t[2][1:])[::-1])[0])
                 nh = int(struct.unpack("<d", bytes.fromhex(t[3][1:])[::-1])[0]) if kind == "lbfgs" else 100
-                dops.append(f"xopt {kind} {ls} {nh}")
+                # initial bracket of dlinmin (LineSearch::minInterval/maxInterval), default [0, 1]
+                br = t[4:6] if kind == "lbfgs" else t[3:5]
+                if len(br) != 2: br = [fb(0.0), fb(1.0)]
+                dops.append(f"xopt {kind} {ls} {nh} {br[0]} {br[1]}")
             else:
                 dops.append("")
             expect.append("plain")
         elif t[0] == "ls" and m:
             typ = int(struct.unpack(">d", bytes.fromhex(t[1][1:]))[0])
-            if typ == 2:
-                n = int(m.group(1).split(",")[0])
-                dops.append("xls %d %s %s" % (n, ",".join(t[2:]), m.group(1).split(",", 1)[1])); expect.append("verdict")
-            else:
-                dops.append(""); expect.append("skip")
+            n = int(m.group(1).split(",")[0])
+            dops.append("xls %d %d %s %s" % (typ, n, ",".join(t[2:]), m.group(1).split(",", 1)[1])); expect.append("verdict")
         elif t[0] == "boxdir" and m:
             n = int(m.group(1).split(",")[0])
             dops.append("xboxdir %d %s %s %s" % (n, t[1], ",".join(t[2:]), m.group(1).split(",", 1)[1])); expect.append("verdict")
+        elif t[0] in ("init", "step") and kind == "trn" and m:
+            # trust-region Newton: one-step refinement against Model/TrustRegion.lean
+            dops.append("xtrn " + t[0] + " " + m.group(1)); expect.append("verdict")
         elif t[0] in ("init", "step") and kind in LS_KINDS and m:
             dops.append(("xinit " if t[0] == "init" else "xstep ") + m.group(1) + (" " + mbx.group(1) if mbx and t[0] == "step" else ""))
             expect.append("verdict")
@@ -488,6 +553,9 @@ def classify(ops, res):
         first_bad = res.diff_at
     saves_before = [o.split()[2] for o in ops[:(first_bad if first_bad is not None else len(ops)) + 1] if o.startswith("save")]
     otext = " ".join(res.oracle)
+    if tags == ["ls-wolfecubic-uninitialised-bracket"] and not res.crash:
+        return ("F-C10-16:wolfecubic-uninitialised-bracket",
+                f"wolfecubic reads its never-assigned bracket arrays when the bracketing loop runs out of its 25 tenfold expansions (objective decreasing without bound along the direction); ops {ops}")
     if opt == "trn" and "increased" in tags:
         return ("F10:trn-accepts-increase", f"TrustRegionNewton accepts a step that increases the objective (borderDistance sign); ops {ops}")
     # ---- known findings of the box-constrained L-BFGS direction; each key is tied to the harness' diagnosis of the
@@ -597,7 +665,8 @@ def load_corpus():
 def translate(ctx):
     a = ctx.translate("opt_fields.py")
     b = ctx.translate("lbfgs_box.py")
-    return a and b
+    c = ctx.translate("linesearch.py")
+    return a and b and c
 
 
 def build(ctx):
@@ -632,16 +701,44 @@ def record(ctx, cases):
         ctx.hist("dimension", i["n"]); ctx.hist("steps", min(i["steps"] // 10 * 10, 100))
         for s in i["saves"]: ctx.hist("save_protocol", s)
         ctx.hist("saves_per_case", len(i["saves"]))
+        ninit = sum(1 for o in c if o.startswith("init "))
+        ctx.hist("re_initialisations_per_case", max(ninit - 1, 0))
+        first = next((k for k, o in enumerate(c) if o.startswith("init ")), None)
+        if first is not None:
+            # steps before the first save (0 = archive of a freshly initialised object)
+            k = next((sum(1 for o in c[first:j] if o == "step") for j, o in enumerate(c) if j > first and o.startswith("save")), None)
+            if k is not None: ctx.hist("steps_before_first_save", min(k, 20))
+        for o in c:
+            t = o.split()
+            if t[0] == "opt" and t[1] == "lbfgs" and len(t) > 3:
+                ctx.hist("lbfgs_history_size", int(struct.unpack(">d", bytes.fromhex(t[3][1:]))[0]))
+            if t[0] == "opt" and t[1] in LS_KINDS:
+                ctx.hist("dlinmin_bracket_configured", len(t) > (5 if t[1] == "lbfgs" else 4))
+            if t[0] == "opt" and t[1] == "trn": ctx.hist("trn_configured", len(t) > 2)
+            if t[0] == "opt" and t[1] == "rprop":
+                f = [int(struct.unpack(">d", bytes.fromhex(x[1:]))[0]) for x in t[6:9]]
+                ctx.hist("rprop_variant(freeze,backtrack,oldvalue)", "%d%d%d" % tuple(f))
+            if t[0] == "opt" and t[1] == "sd": ctx.hist("sd_momentum", struct.unpack(">d", bytes.fromhex(t[3][1:]))[0])
+            if t[0] == "ls": ctx.hist("direct_linesearch_type", int(struct.unpack(">d", bytes.fromhex(t[1][1:]))[0]))
+            if t[0] == "init":
+                xs = [struct.unpack(">d", bytes.fromhex(x[1:]))[0] for x in t[1:]]
+                ctx.hist("start_all_zero", all(v == 0 for v in xs))
 
 
 def run(ctx):
     ctx.trusted += ["correspondence harness harness/c10.cpp + generator checks/c10.py",
-                    "hand-written model Model/GradOpt.lean, Model/Objectives.lean",
+                    "hand-written models Model/GradOpt.lean, Model/LineSearches.lean, Model/TrustRegion.lean, Model/Objectives.lean",
                     "ASan/UBSan runtime for the real code's memory safety (not a theorem)"]
     translate(ctx)
-    ctx.prove(["SharkVerif.Props.C10"])
+    PROPS = ["SharkVerif.Props.C10", "SharkVerif.Props.C10Deep", "SharkVerif.Lemmas.LineSearches", "SharkVerif.Lemmas.LBFGS", "SharkVerif.Lemmas.TrustRegion", "SharkVerif.Gen.LineSearchSrc"]
+    ctx.prove(PROPS)
     if not ctx.quick:
-        ctx.leanchecker(["SharkVerif.Props.C10"])
+        ctx.leanchecker(PROPS)
+    try:
+        g = open(os.path.join(core.VERIF, "lean", "SharkVerif", "Gen", "LineSearchSrc.lean")).read()
+        ctx.cov["wolfecubic_bracket_initialised_in_tree"] = "wolfeBracketInitialised : Bool := true" in g
+    except OSError:
+        pass
     exe = build(ctx)
     drv = ctx.driver("drv_c10")
     if not exe or not drv:
@@ -656,6 +753,9 @@ def run(ctx):
     # all 8 Rprop variants (useFreezing x useBacktracking x useOldValue) on narrow boxes, non-separable objectives
     variants = [(a, b2, c2) for a in (0, 1) for b2 in (0, 1) for c2 in (0, 1)]
     cases += [gen_rprop_box_case(r, maxsteps, variants[i % 8]) for i in range(96 if ctx.quick else 960)]
+    bsc, blc = boundary_cases(r)
+    for cls, ops in bsc + blc: ctx.hist("boundary_class", cls)
+    cases += [ops for _, ops in bsc]
     record(ctx, cases)
     ctx.cov["evaluations"] = len(cases)
     ctx.cov["distinct_nontrivial"] = len({"\n".join(c) for c in cases if case_info(c)["steps"] >= 3})
@@ -671,6 +771,7 @@ def run(ctx):
     lcases += [gen_lbfgs_box_converge_case(r, 300 if ctx.quick else 600) for _ in range(70 if ctx.quick else 700)]
     # direct calls of getBoxConstrainedDirection (model of the dog-leg tied; oracle: feasible, descent, non-zero)
     lcases += [gen_boxdir_case(r, 12) for _ in range(60 if ctx.quick else 600)]
+    lcases += [ops for _, ops in blc]
     record(ctx, lcases)
     for c in lcases:
         for o in c:
